@@ -26,7 +26,7 @@ type progressBox struct {
 	p  gpbft.InstanceProgress
 }
 
-func (b *progressBox) get() gpbft.InstanceProgress { b.mu.Lock(); defer b.mu.Unlock(); return b.p }
+func (b *progressBox) get() gpbft.InstanceProgress  { b.mu.Lock(); defer b.mu.Unlock(); return b.p }
 func (b *progressBox) set(p gpbft.InstanceProgress) { b.mu.Lock(); defer b.mu.Unlock(); b.p = p }
 
 type obligation struct {
@@ -81,9 +81,9 @@ func TestC18ChainExchange(t *testing.T) {
 			}
 			return vgen.Chain(ts...)
 		}
-		wanted := map[uint64]map[[32]byte]bool{}       // keys the node asked for / broadcast itself, per instance
-		var obligations []obligation                    // chains that must stay retrievable
-		var pool []obligation                           // every chain ever generated (for lookups)
+		wanted := map[uint64]map[[32]byte]bool{} // keys the node asked for / broadcast itself, per instance
+		var obligations []obligation             // chains that must stay retrievable
+		var pool []obligation                    // every chain ever generated (for lookups)
 		wantKey := func(inst uint64, k [32]byte) {
 			if wanted[inst] == nil {
 				wanted[inst] = map[[32]byte]bool{}
